@@ -30,13 +30,25 @@ def mine(ctx):
 def jobs_for(ctx):
     if ctx.quick:
         return [("DiagRules_q", dict(workers=4, timeout=600)),
+                ("DiagRules_q2", dict(workers=4, timeout=600)),      # the two-comment family (every 2nd layout)
                 ("DiagRules_qs", dict(workers=1, timeout=600, simulate="num=400", depth=8, seed=ctx.seed))]
     return [("DiagRules_t", dict(workers=6, timeout=1200)),
+            ("DiagRules_t2", dict(workers=6, timeout=1200)),
             ("DiagRules_ts", dict(workers=1, timeout=1800, simulate="num=4000", depth=8, seed=ctx.seed))]
 
 
-def signature(rows, r, kf, suppressed):
-    c = next(i for i, x in enumerate(rows, start=1) if x["cm"])
+def signature(rows, r, kf, suppressed, coded=0):
+    cs = [i for i, x in enumerate(rows, start=1) if x["cm"]]
+    if len(cs) > 1:
+        if kf and suppressed and coded == 1:
+            # the known comment-only-block mechanism (the transcription with the mined owner block explains it)
+            return "C19/block/comment-only-block/leaks-to-parent"
+        # two-comment family: the kinds of the comments in writing order, where the diagnostic lies relative to them
+        rel = "before" if r < cs[0] else "after" if r > cs[-1] else "at" if r in cs else "between"
+        return "C19/two-comments/%s/diagnostic-%s/%s" % (
+            "+".join(rows[i - 1]["cm"]["kind"] + ("" if rows[i - 1]["cm"]["codes"] != "all" else "-all") for i in cs), rel,
+            "wrongly-suppressed" if suppressed else "wrongly-reported")
+    c = cs[0]
     cm = rows[c - 1]["cm"]
     where = "inline" if rows[c - 1]["k"] != "C" else "own-line"
     verdict = "wrongly-suppressed" if suppressed else "wrongly-reported"
@@ -126,7 +138,7 @@ def run(ctx):
             suppressed = key not in lrep
             nontrivial = nontrivial or stated == 1
             if suppressed != (stated == 1):
-                sig = signature(rows, r, kf, suppressed)
+                sig = signature(rows, r, kf, suppressed, coded)
                 viol.setdefault(sig, []).append({"program": text, "diagnostic": {"line": key[0], "character": key[1], "code": key[2]},
                                                  "expected": "suppressed" if stated else "reported",
                                                  "observed": "suppressed" if suppressed else "reported",
@@ -142,7 +154,8 @@ def run(ctx):
     ctx.validated(len(meta) - panics)
     ctx.note("layouts", len(meta))
     ctx.rule("distinct layouts (rows of diagnostics X=undefined-global / Y=deprecated at column 0 or 2, do/end blocks, blank rows, "
-             "one suppression comment of kind next/line/block x code list all/X/Y, inline or own-line, with optional doc lines) "
+             "one suppression comment of kind next/line/block x code list all/X/Y/U/XU, inline or own-line, with optional doc lines; "
+             "second family: exactly two comments of any kinds x all/X/Y, X diagnostics at column 0) "
              "emitted by TLC with the expected bit per diagnostic row; each replayed with the live and the neutralised comment; "
              "non-trivial = at least one diagnostic expected to be suppressed")
     ctx.assume("row reading of the property text as in DiagRules!Stated (an inline comment does not cover code before it for "
